@@ -156,6 +156,18 @@ func trueSuccessors(v ssa.Value) []*ssa.BasicBlock {
 				} else {
 					out = append(out, y.Block().Succs[0])
 				}
+			case *ssa.BinOp:
+				// comparison of the boolean with a constant: x == false, x != true, ...
+				if y.Op == token.EQL || y.Op == token.NEQ {
+					other := y.Y
+					if y.Y == x {
+						other = y.X
+					}
+					if b, isC := constBool(other); isC {
+						flip := (y.Op == token.EQL) != b
+						visit(y, neg != flip)
+					}
+				}
 			case *ssa.UnOp:
 				if y.Op == token.NOT {
 					visit(y, !neg)
@@ -680,6 +692,18 @@ func falseSuccessors(v ssa.Value) []*ssa.BasicBlock {
 					out = append(out, y.Block().Succs[0])
 				} else {
 					out = append(out, y.Block().Succs[1])
+				}
+			case *ssa.BinOp:
+				// comparison of the boolean with a constant: x == false, x != true, ...
+				if y.Op == token.EQL || y.Op == token.NEQ {
+					other := y.Y
+					if y.Y == x {
+						other = y.X
+					}
+					if b, isC := constBool(other); isC {
+						flip := (y.Op == token.EQL) != b
+						visit(y, neg != flip)
+					}
 				}
 			case *ssa.UnOp:
 				if y.Op == token.NOT {
